@@ -77,6 +77,16 @@ fn tune(prop: &str, cfg: &mut GenCfg, seed: u64) {
         // now and then one commit adds more than a whole growth step (8 MiB)
         cfg.huge_value = seed % 16 == 0;
     }
+    // the legacy (0.10) header format is a starting state like any other: in some runs the
+    // file is re-stamped in it at a reopen and the history goes on
+    cfg.legacy_restamp = match prop {
+        "C02" | "C11" => seed % 3 == 1,
+        "C01" | "C05" | "C06" | "C16" => seed % 8 == 3,
+        _ => false,
+    };
+    if cfg.legacy_restamp {
+        cfg.p_reopen = cfg.p_reopen.max(20);
+    }
     match prop {
         "C05" => {
             // one run in four keeps read-only transactions open across commits: pages stay
